@@ -53,22 +53,15 @@ func refTokens(q string) []string {
 	return toks
 }
 
-func asciiLower(s string) string {
-	b := []byte(s)
-	for i, c := range b {
-		if c >= 'A' && c <= 'Z' {
-			b[i] = c + 32
-		}
-	}
-	return string(b)
-}
+// lowerCase: "case-insensitive" in the statement is Go's strings.ToLower on both sides.
+func lowerCase(s string) string { return strings.ToLower(s) }
 
 func refMatch(text string, toks []string) bool {
 	if len(toks) == 0 {
 		return true
 	}
 	for _, t := range toks {
-		if t != "" && strings.Contains(asciiLower(text), asciiLower(t)) {
+		if t != "" && strings.Contains(lowerCase(text), lowerCase(t)) {
 			return true
 		}
 	}
@@ -115,12 +108,29 @@ func refFilter(c *Case, a Args) []Item {
 	} else if c.Field != "bareI" {
 		attrs = textAttrs
 	}
+	// filterType names a custom FilterFunc (tokeniser + match) registered on the field; an unregistered
+	// name matches nothing
+	match := refMatch
 	toks := refTokens(*a.FilterText)
+	if a.FilterType != nil {
+		registered := false
+		for _, n := range customNames {
+			registered = registered || (n == *a.FilterType && c.Field != "bareI")
+		}
+		name := *a.FilterType
+		if registered {
+			toks = customTokens(name, *a.FilterText)
+			match = func(text string, toks []string) bool { return customMatch(name, text, toks) }
+		} else {
+			toks = nil
+			match = func(string, []string) bool { return false }
+		}
+	}
 	var out []Item
 	for _, it := range c.Items {
 		keep := false
 		for _, at := range attrs {
-			if refMatch(textAttr(it, at), toks) {
+			if match(textAttr(it, at), toks) {
 				keep = true
 			}
 		}
@@ -148,8 +158,12 @@ func refSort(c *Case, a Args, in []Item) ([]Item, bool) {
 			lt = x.N[0] < y.N[0]
 		case "n1":
 			lt = x.N[1] < y.N[1]
+		case "u0":
+			lt = x.U < y.U
+		case "f0":
+			lt = x.F < y.F
 		default:
-			lt = asciiLower(x.S) < asciiLower(y.S)
+			lt = lowerCase(x.S) < lowerCase(y.S)
 		}
 		return lt
 	}
@@ -170,6 +184,23 @@ func refSort(c *Case, a Args, in []Item) ([]Item, bool) {
 		}
 	}
 	return out, true
+}
+
+// externallyManaged: the resolver, not thunder, paginates (extI, or dualI with the switch on manual).
+func externallyManaged(c *Case) bool {
+	return c.Field == "extI" || (c.Field == "dualI" && !c.Fallback)
+}
+
+// refList: the list that is paginated.  Thunder-managed: filtered, then sorted.  Externally managed: what
+// the resolver returned, filtered only if it asks for it (ApplyTextFilter), never sorted.
+func refList(c *Case, a Args) ([]Item, bool) {
+	if externallyManaged(c) {
+		if c.Ext != nil && c.Ext.ApplyTextFilter {
+			return refFilter(c, a), true
+		}
+		return c.Items, true
+	}
+	return refSort(c, a, refFilter(c, a))
 }
 
 func cursorOf(key string) string { return base64.StdEncoding.EncodeToString([]byte(key)) }
@@ -271,7 +302,10 @@ func viewOf(conn map[string]interface{}) (v pageView) {
 
 // checkPage evaluates the per-page clauses of the statement on one implementation page.
 func checkPage(c *Case, a Args, r pageResult) []oracleFailure {
-	ref, sortOK := refSort(c, a, refFilter(c, a))
+	if externallyManaged(c) && (c.Ext == nil || !c.Ext.SetPageInfo) {
+		return checkExtPage(c, a, r)
+	}
+	ref, sortOK := refList(c, a)
 	if !sortOK || !argsValid(a) {
 		return nil // the statement does not speak about rejected arguments
 	}
@@ -296,6 +330,10 @@ func checkPage(c *Case, a Args, r pageResult) []oracleFailure {
 			break
 		}
 	}
+	if c.Field == "dualI" && c.Fallback && a.FilterType != nil && len(fs) > 0 && v.total == 0 && len(v.keys) == 0 && len(ref) > 0 {
+		// the fallback resolver of ManualPaginationWithFallback with a custom FilterFunc
+		fs = []oracleFailure{{"custom-filter-ignored-on-fallback-path", fs[0].detail}}
+	}
 	if v.hasNext != want.hasNext {
 		sig := "hasNextPage-wrong"
 		if want.bothFound {
@@ -319,7 +357,7 @@ func checkPage(c *Case, a Args, r pageResult) []oracleFailure {
 // checkWalk: the pages of a completed walk, concatenated (reversed page order for a backward walk),
 // are exactly the filtered elements in sorted order, each exactly once.
 func checkWalk(c *Case, pages []pageResult, finished bool) []oracleFailure {
-	ref, sortOK := refSort(c, c.Args, refFilter(c, c.Args))
+	ref, sortOK := refList(c, c.Args)
 	if !sortOK {
 		return nil
 	}
@@ -353,4 +391,57 @@ func checkWalk(c *Case, pages []pageResult, finished bool) []oracleFailure {
 		return []oracleFailure{{name + "-not-a-partition", fmt.Sprintf("walk visited %q, filtered sorted list is %q", got, want)}}
 	}
 	return nil
+}
+
+// checkExtPage: an externally managed connection without SetPageInfo.  PaginationInfo is "the source of
+// truth" (pagination.go): totalCount, hasNextPage, hasPrevPage are the resolver's, the page is everything
+// the resolver returned (text-filtered only if it asked for that), cursors are those of the first and
+// last edge.  A PaginationInfo without TotalCountFunc is rejected.  An empty page is returned as the empty
+// connection (the resolver's info is dropped): recorded, not judged.
+func checkExtPage(c *Case, a Args, r pageResult) []oracleFailure {
+	if len(c.Items) == 0 || c.Ext == nil {
+		return nil
+	}
+	if c.Ext.Total == nil {
+		if r.Err != "no-total-func" {
+			return []oracleFailure{{"ext-missing-total-func-not-rejected", r.Err}}
+		}
+		return nil
+	}
+	if r.Err != "" {
+		return []oracleFailure{{"unexpected-error", r.Err}}
+	}
+	v := viewOf(r.Conn)
+	if !v.ok {
+		return []oracleFailure{{"malformed-connection", fmt.Sprint(r.Conn)}}
+	}
+	ref, _ := refList(c, a)
+	var want []string
+	for _, it := range ref {
+		want = append(want, it.Key)
+	}
+	var fs []oracleFailure
+	if v.total != *c.Ext.Total {
+		fs = append(fs, oracleFailure{"ext-totalCount-not-from-resolver", fmt.Sprintf("totalCount=%d, resolver said %d", v.total, *c.Ext.Total)})
+	}
+	if v.hasNext != c.Ext.HasNext || v.hasPrev != c.Ext.HasPrev {
+		fs = append(fs, oracleFailure{"ext-pageinfo-not-from-resolver", fmt.Sprintf("hasNextPage=%v hasPrevPage=%v, resolver said %v %v", v.hasNext, v.hasPrev, c.Ext.HasNext, c.Ext.HasPrev)})
+	}
+	if len(v.keys) != len(want) || strings.Join(v.keys, "\x00") != strings.Join(want, "\x00") {
+		fs = append(fs, oracleFailure{"ext-page-contents-wrong", fmt.Sprintf("page holds %q, resolver returned %q", v.keys, want)})
+	}
+	for i, k := range v.keys {
+		if v.cursors[i] != cursorOf(k) {
+			fs = append(fs, oracleFailure{"cursor-wrong", fmt.Sprintf("edge %q has cursor %q", k, v.cursors[i])})
+			break
+		}
+	}
+	ws, we := "", ""
+	if len(v.cursors) > 0 {
+		ws, we = v.cursors[0], v.cursors[len(v.cursors)-1]
+	}
+	if v.start != ws || v.end != we {
+		fs = append(fs, oracleFailure{"start-end-cursor-wrong", fmt.Sprintf("start=%q end=%q, first/last edge %q/%q", v.start, v.end, ws, we)})
+	}
+	return fs
 }
